@@ -49,7 +49,7 @@ LEVEL_TEXT = ('Theorems over the Gallina model of TileWalker._walk / SeedProgres
               'strict-order properties of can_skip, soundness of the geometric walk for every grid, meta size, level list '
               'and monotone coverage predicate (walk_sound_partial), walk_completes: no _walk call of a task on a well-formed '
               'grid with sorted valid levels raises (holds since the repair of finding C11-sliver); completeness of the selection: walk_complete_chain and walk_complete_interior (points at least '
-              '1/10 pixel inside the traversed rectangles) are proved, walk_complete_nested is NOT; tied to mapproxy/seed/seeder.py, seed/util.py and grid.py MetaGrid by '
+              '1/10 pixel inside the traversed rectangles) and walk_complete_nested (pyramids whose resolutions are integer multiples: no interiority with respect to tiles) are proved; tied to mapproxy/seed/seeder.py, seed/util.py and grid.py MetaGrid by '
               'running the real walker on generated tasks and comparing event traces with the model evaluated by vm_compute.')
 LEVEL_NOTE = ('Trusted: Coq kernel, hand-written model Seed.v / Grid.v, the correspondence harness. Not verified: IEEE rounding '
               '(exact stream is bit exact; realistic stream is tied at the level of the recorded walk tree), shapely predicates '
